@@ -204,9 +204,9 @@ def runCase (c : Case) : String := Id.run do
     let mlogE := fin.log.reverse
     let mlog := mlogE.map fun x => (x.time, tagAt x.idx)
     let untag (g : Nat) : Nat := (indexOf? cp.tags g).getD cp.tags.length
-    let verdict := ExecSpec.accept big evs [] none (impl.map fun (t, g) => (t, untag g)) 0 cp.s0
+    let verdict := ExecSpec.accept P big evs [] none (impl.map fun (t, g) => (t, untag g)) 0 cp.s0
     -- the specification must accept the model's own history (consistency of model and specification)
-    match ExecSpec.accept big evs [] none (mlogE.map fun x => (x.time, x.idx)) 0 cp.s0 with
+    match ExecSpec.accept P big evs [] none (mlogE.map fun x => (x.time, x.idx)) 0 cp.s0 with
     | .ok => pure ()
     | v => return s!"fail {id} op={op} kind=internal what=spec-rejects-model detail={reprStr v |>.replace "\n" " "}"
     let modelEq := impl == mlog
@@ -247,7 +247,7 @@ def runCase (c : Case) : String := Id.run do
     let foreign := (mlogE.filter fun x => x.origin == .foreign).length
     let burst := (mlog.map (·.1)).eraseDups.foldl (fun m t => max m (mlog.filter (·.1 == t)).length) 0
     let nt := ran ≥ 2 && links + timed + handed + foreign ≥ 1
-    return s!"ok {id} nt={if nt then 1 else 0} obs={obs} tasks={ran} links={links} timerwoken={timed} handedover={handed} crossmodule={foreign} burst={burst} over61={if burst > 61 then 1 else 0}"
+    return s!"ok {id} nt={if nt then 1 else 0} obs={obs} tasks={ran} links={links} timerwoken={timed} handedover={handed} crossmodule={foreign} silentpolls={fin.silent} burst={burst} over61={if burst > 61 then 1 else 0}"
   | _, _, _, _, _, _ => return s!"fail {id} op={op} kind=badline detail={ans}"
 
 def main (stdin : IO.FS.Stream) : IO Unit := do
